@@ -176,6 +176,9 @@ def main(argv):
 
 
 if __name__ == "__main__":
+    import faulthandler
+    import signal
+    faulthandler.register(signal.SIGUSR1, all_threads=True)  # kill -USR1 <pid> prints every thread's stack
     try:
         sys.exit(main(sys.argv[1:]))
     except SystemExit:
